@@ -1,0 +1,52 @@
+//go:build verif
+
+// Machine-checked contracts for govc (see /verif/DESIGN.md). Comments only;
+// compiled only with the build tag "verif".
+
+package trustedproxy
+
+// ---- C09: forwarded headers of untrusted peers are removed before the request is handled ----
+
+// the seven headers of the property
+//@ func init
+//@   props C09
+//@   ensures len(untrustedHeader) == 7 && untrustedHeader[0] == "Forwarded" && untrustedHeader[1] == "X-Forwarded-For" && untrustedHeader[2] == "X-Forwarded-Proto" && untrustedHeader[3] == "X-Forwarded-Host" && untrustedHeader[4] == "X-Forwarded-Uri" && untrustedHeader[5] == "X-Forwarded-Path" && untrustedHeader[6] == "X-Forwarded-Method"
+
+//@ spec holderContains(h ipHolder, ip net.IP) bool
+
+//@ iface (ipHolder).Contains
+//@   props C09
+//@   logged hc
+//@   pure
+//@   defines holderContains(recv, ip)
+
+// a single address is trusted for exactly that address
+//@ func (simpleIP).Contains
+//@   props C09
+//@   ensures ret0 == ipEqual(s, ip)
+
+// trusted <=> some listed entry contains the peer address
+//@ func (trustedProxySet).Contains
+//@   props C09
+//@   logged tpc
+//@   ensures !ret0 ==> forall i int :: 0 <= i && i < len(tpm) ==> !holderContains(old(tpm[i]), ip)
+//@   ensures ret0 ==> 0 <= hc.n - old(hc.n) - 1 && hc.n - old(hc.n) - 1 < len(tpm) && holderContains(before(tpm[hc.n - old(hc.n) - 1]), ip)
+//@   loop 0 invariant idx + 1 <= len(tpm) && hc.n == old(hc.n) + idx + 1 && forall i int :: 0 <= i && i <= idx ==> !holderContains(old(tpm[i]), ip)
+
+// entries are parsed as written: CIDR notation by ParseCIDR, single addresses by ParseIP
+//@ func New
+//@   props C09
+//@   assert at call net.ParseCIDR#1: callarg0 == ipAddr && contains(ipAddr, "/")
+//@   assert at call net.ParseIP#1: callarg0 == ipAddr && !contains(ipAddr, "/")
+
+// the middleware: untrusted peer => every listed header is deleted before the next handler runs;
+// trusted peer => the headers are passed on untouched
+//@ func New$1$1
+//@   props C09
+//@   ensures tpc.n == old(tpc.n) + 1 && serve.n == old(serve.n) + 1 && serve.arg2[old(serve.n)] == req
+//@   ensures tpc.ret0[old(tpc.n)] ==> hdel.n == old(hdel.n) && hset.n == old(hset.n) && hadd.n == old(hadd.n)
+//@   ensures !tpc.ret0[old(tpc.n)] ==> hdel.n == old(hdel.n) + len(untrustedHeader)
+//@   ensures !tpc.ret0[old(tpc.n)] ==> forall k int :: old(hdel.n) <= k && k < hdel.n ==> hdel.arg0[k] == old(req.Header) && hdel.arg1[k] == untrustedHeader[k - old(hdel.n)]
+//@   assert at call Handler_.ServeHTTP#1: tpc.ret0[tpc.n-1] || hdel.n == old(hdel.n) + len(untrustedHeader)
+//@   loop 0 invariant idx + 1 <= len(untrustedHeader) && hdel.n == old(hdel.n) + idx + 1 && serve.n == old(serve.n) && tpc.n == old(tpc.n) + 1
+//@   loop 0 invariant forall k int :: old(hdel.n) <= k && k < hdel.n ==> hdel.arg0[k] == old(req.Header) && hdel.arg1[k] == untrustedHeader[k - old(hdel.n)]
